@@ -8,8 +8,9 @@
    bool, char, strings, the three date-time types, unit and unit structs as unsupported shapes).
    Oracle (trusted, checked on every run by the harness command `fidelity`): the calls
    `#[derive(Serialize, Deserialize)]` makes for each shape, as written into Model/Ser.v, De.v. *)
-From TV Require Import Base.Prelude Model.Datetime Model.SerNum Spec.SerdeData Model.Ser Model.De
-  Proofs.SerdeRTBase Proofs.SerdeRT Proofs.SerdeRTErr Proofs.SerdeRTRoot Extract.Show.
+From TV Require Import Base.Prelude Model.Datetime Model.SerNum Spec.SerdeData Model.Ser Model.De Model.SerFmt
+  Proofs.SerdeRTBase Proofs.SerdeRT Proofs.SerdeRTErr Proofs.SerdeRTRoot Proofs.SerdeRTRefuse
+  Proofs.SerdeRTTryFrom Proofs.SerdeRTTv Proofs.SerdeRTFmt Proofs.SerdeRTRoutes Extract.Show.
 Require Import String.
 
 (* ---- toml_edit's ValueSerializer / ValueDeserializer: the core of all five text / document routes ---- *)
@@ -30,6 +31,17 @@ Print Assumptions C07_errors_documented.
 Theorem C07_supported : forall ty v, has_type v ty -> supported ty v -> exists out, ser_value ty v = Ok out.
 Proof. exact supported_ok. Qed.
 Print Assumptions C07_supported.
+
+(* ... and conversely every documented unsupported shape is refused: nothing is silently dropped *)
+Theorem C07_unsupported_refused : forall ty v e,
+  has_type v ty -> unsupported CElem ty v e -> exists e', ser_value ty v = Err e'.
+Proof. exact unsupported_refused. Qed.
+Print Assumptions C07_unsupported_refused.
+
+Theorem C07_ok_iff_supported : forall ty v,
+  has_type v ty -> ((exists out, ser_value ty v = Ok out) <-> supported ty v).
+Proof. exact ser_ok_iff_supported. Qed.
+Print Assumptions C07_ok_iff_supported.
 
 (* ---- document roots: toml_edit::ser::{to_string, to_string_pretty, to_document} ---- *)
 Theorem C07_edit_root_is_table : forall t v out,
@@ -70,6 +82,82 @@ Theorem C07_toml_supported : forall ty v, has_type v ty -> supported ty v -> tom
 Proof. exact toml_root_supported. Qed.
 Print Assumptions C07_toml_supported.
 
+(* ---- the five document routes in one statement (the shape of DESIGN.md 6/C07) ----
+   routes: EditPlain EditPretty ToDocument TomlPlain TomlPretty; `documented`: an unsupported shape in the
+   value, a root that is not table-shaped, or (toml only) a struct variant at the root *)
+Theorem C07_roundtrip : forall r ty v, doc_route r = true -> has_type v ty ->
+  match ser_route r ty v with
+  | Err e => documented r ty v e
+  | Ok out => exists v', de_route r ty out = Ok v' /\ sval_eq v v'
+  end.
+Proof. exact roundtrip_doc_routes. Qed.
+Print Assumptions C07_roundtrip.
+
+Theorem C07_supported_routes : forall r ty v,
+  doc_route r = true -> has_type v ty -> supported ty v -> root_ok r ty v = true -> exists out, ser_route r ty v = Ok out.
+Proof. exact supported_doc_routes. Qed.
+Print Assumptions C07_supported_routes.
+
+(* ---- between the tree and the text: the root conversion and the two "pretty" post-processors ----
+   (toml_edit::ser::pretty::Pretty for to_string_pretty, toml::fmt::DocumentFormatter for both of toml's):
+   the document they hand to the printer denotes the tree ValueSerializer built (`abs`), and has tables
+   and arrays of tables only where a [header] can stand (`printable`; the repaired defect F6 was a
+   Table left inside an array) *)
+Theorem C07_edit_plain_document : forall es,
+  abs (doc_edit_plain (VTab es)) = VTab es /\ printable (doc_edit_plain (VTab es)) = true.
+Proof. exact doc_edit_plain_ok. Qed.
+Print Assumptions C07_edit_plain_document.
+
+Theorem C07_edit_pretty_document : forall es,
+  abs (doc_edit_pretty (VTab es)) = VTab es /\ printable (doc_edit_pretty (VTab es)) = true.
+Proof. exact doc_edit_pretty_ok. Qed.
+Print Assumptions C07_edit_pretty_document.
+
+Theorem C07_toml_document : forall es,
+  abs (doc_toml (VTab es)) = VTab es /\ printable (doc_toml (VTab es)) = true.
+Proof. exact doc_toml_ok. Qed.
+Print Assumptions C07_toml_document.
+
+(* ---- toml::Value::try_from / toml::Table::try_from, read back by try_into ----
+   The full statement
+     forall ty v out, has_type v ty -> tv_ser ty v = Ok out -> exists v', tv_de ty out = Ok v' /\ sval_eq v v'
+   is FALSE of the code (known finding C07-tryfrom-nested-none-dropped): SerializeMap::serialize_value
+   swallows any UnsupportedNone coming out of a field's value, so
+   V { v: Some(vec![Some(1), None]) } becomes the empty table and reads back as V { v: None }. *)
+Theorem C07_tryfrom_roundtrip_refuted :
+  exists ty v out,
+    has_type v ty /\ tv_ser ty v = Ok out /\ tv_ser_table ty v = Ok out
+    /\ ser_value ty v = Err EUnsupportedNone
+    /\ exists v', tv_de ty out = Ok v' /\ ~ sval_eq v v'.
+Proof. exact tryfrom_refuted. Qed.
+Print Assumptions C07_tryfrom_roundtrip_refuted.
+
+Theorem C07_tryfrom_undecodable_refuted :
+  exists ty v out,
+    has_type v ty /\ tv_ser ty v = Ok out /\ ser_value ty v = Err EUnsupportedNone /\ tv_de ty out = Err EDe.
+Proof. exact tryfrom_refuted_undecodable. Qed.
+Print Assumptions C07_tryfrom_undecodable_refuted.
+
+(* the part that holds: a value without any documented unsupported shape is accepted and reads back
+   (what is missing for the full statement is exactly the finding above) *)
+Theorem C07_tryfrom_roundtrip_partial : forall ty v,
+  has_type v ty -> supported ty v ->
+  exists out, tv_ser ty v = Ok out /\ exists v', tv_de ty out = Ok v' /\ sval_eq v v'.
+Proof. exact tryfrom_supported. Qed.
+Print Assumptions C07_tryfrom_roundtrip_partial.
+
+Theorem C07_table_tryfrom_roundtrip_partial : forall ty v out,
+  has_type v ty -> supported ty v -> tv_ser_table ty v = Ok out ->
+  exists v', tv_de ty out = Ok v' /\ sval_eq v v'.
+Proof. exact table_tryfrom_roundtrip. Qed.
+Print Assumptions C07_table_tryfrom_roundtrip_partial.
+
+(* a failure of Value::try_from names some documented unsupported shape *)
+Theorem C07_tryfrom_errors : forall ty v e,
+  has_type v ty -> tv_ser ty v = Err e -> exists e', unsupported CElem ty v e'.
+Proof. intros ty v e. exact (tv_errors ty v e). Qed.
+Print Assumptions C07_tryfrom_errors.
+
 (* ---- non-vacuity ---- *)
 (* struct Cfg { m: BTreeMap<String, Vec<En>>, o: Option<Point>, t: En, d: Datetime, w: Wrap(u8), c: char, x: f32 }
    enum En { U, N(i64), T(bool, String), S { a: Option<i32>, b: u64 } }     struct Point { x: i32, y: i32 } *)
@@ -109,6 +197,20 @@ Proof. vm_compute. reflexivity. Qed.
 
 (* the documented unsupported shapes do occur, and are refused: None in a sequence, a unit, a
    non-string key, a u64 beyond i64, a non-table root, a struct variant at the root of toml::to_string *)
+Example C07_ex_tryfrom_roundtrip :
+  match tv_ser ex_ty ex_val with Ok out => tv_de ex_ty out | Err e => Err e end = Ok ex_val.
+Proof. vm_compute. reflexivity. Qed.
+
+(* v = ["U", { B = { inner = 1 } }] (the F6 witness) stays an inline array; w = [{ x = [1] }, { x = [] }] becomes [[w]] *)
+Example C07_ex_pretty :
+  doc_edit_pretty (VTab [(str "v", VArr [VStr (str "U"); VTab [(str "B", VTab [(str "inner", VInt 1)])]]);
+                         (str "w", VArr [VTab [(str "x", VArr [VInt 1])]; VTab [(str "x", VArr [])]]);
+                         (str "t", VTab [(str "a", VTab [])])])
+  = ITab [(str "v", IArr [ILeaf (VStr (str "U")); IInl [(str "B", IInl [(str "inner", ILeaf (VInt 1))])]]);
+          (str "w", IAot [ITab [(str "x", IArr [ILeaf (VInt 1)])]; ITab [(str "x", IArr [])]]);
+          (str "t", ITab [(str "a", ITab [])])].
+Proof. vm_compute. reflexivity. Qed.
+
 Example C07_ex_none_in_seq :
   ser_value (TSeq (TOpt TBool)) (SSeq [SSome (SBool true); SNone]) = Err EUnsupportedNone
   /\ unsupported CElem (TSeq (TOpt TBool)) (SSeq [SSome (SBool true); SNone]) EUnsupportedNone.
